@@ -56,6 +56,21 @@ def gen_ops(rng, n, unix, buffered, cap):
     return ",".join(ops) or "-"
 
 
+def xl_cases():
+    return ["XL %s %s" % (a, b) for a in ("u 5 20", "16 9 7", "d 4 300", "64 12 20") for b in ("long", "nul")]
+
+
+def big_udp_cases():
+    """buffered UDP sinks whose capacity exceeds what one IPv4 datagram can carry: nothing is written while what was
+    emitted fits the configured capacity (what the OS then says to the oversized flush is its business; judged, not
+    modelled)"""
+    def e(n, j):
+        return "E" + hx((b"b%d." % j) + b"z" * (n - 3))
+    return ["BU 70000 q0 " + ",".join([e(30000, 0), "s", e(30000, 1), "s", e(5600, 2), "s"]),
+            "BU 66000 q0 " + ",".join([e(20000, 0), e(20000, 1), e(20000, 2), "s", e(5000, 3), "s"]),
+            "BU 100000 q0 " + ",".join([e(60000, 0), "s", e(3000, 1), e(2000, 2), e(600, 3), "s"])]
+
+
 def ur_cases():
     """UDP sinks over a socket connected to a closed port"""
     return ["UR " + spec for spec in ("u 6 20", "u 9 300", "16 8 9", "24 10 7", "64 12 20", "d 7 200", "d 5 600", "8 6 30")]
@@ -101,6 +116,8 @@ def gen_cases(rng, n):
     for spec in ("u 40 30", "u 120 700", "16 80 10", "64 160 20", "512 400 90"):
         cases.append("XW " + spec)
     cases += ur_cases()
+    cases += xl_cases()
+    cases += big_udp_cases()
     cases += stats_sample_cases(rng, max(10, n // 10))
     for _ in range(n):
         fam = rng.choice(["U", "X", "BU", "BX", "BU", "BX", "US", "UT", "BUS", "BUT"])
@@ -154,7 +171,7 @@ def xw_as_model_case(case, obs):
     if t[0] in ("XS", "BXS"):
         ops = ",".join(o for o in t[3].split(",") if o != "m")
         return ("X b q0 " if t[0] == "XS" else "BX %s q0 " % t[1]) + ops
-    if t[0] == "UR":
+    if t[0] in ("UR", "XL") or (t[0] == "BU" and t[1].isdigit() and int(t[1]) > 65000):
         return "UA 0 -"          # judged on the implementation's observation only
     if t[0] != "XW":
         return case
@@ -178,6 +195,35 @@ def xw_views(case, iobs, mobs):
     iv = "R:%s|D:%s|S:%s" % (",".join("e" if r[0] == "e" else r for r in ip["R"].split(",")), ip["D"], ip["S"])
     mv = "R:%s|D:%s|S:%s" % (",".join(r for r in mp["R"].split(",") if r != "-"), mp["D"], mp["S"])
     return iv + "|A:" + ip.get("A", ""), mv + "|A:" + ip.get("A", "")
+
+
+def judge_xl(t, obs):
+    """a Unix sink whose destination path cannot be a socket address: every send is refused; a refused send is a
+    dropped packet like any other"""
+    bad = []
+    if obs.startswith("HARNESS-PANIC"):
+        return [(p, "unsendable Unix path: " + obs[:160]) for p in ("C13", "C14")]
+    parts = dict(x.split(":", 1) for x in obs.split("|"))
+    res = parts["R"].split(",")
+    st = [int(x) for x in parts["S"].split(".")]
+    n, ln = int(t[2]), int(t[3])
+    ms = [("l%d.%s" % (i, "x" * max(0, ln - 3 - len(str(i))))).encode() for i in range(n)]
+    if st[0] or st[1]:
+        bad.append(("C14", "statistics %s report sent packets although no send can succeed on this path" % st))
+    if t[1] == "u":
+        if any(r[0] != "e" for r in res[:n]):
+            bad.append(("C13", "an emit to a path that cannot be an address returned Ok: %s" % parts["R"]))
+        want = [0, 0, sum(map(len, ms)), n]
+        if st != want:
+            bad.append(("C14", "statistics %s, expected %s: %d sends were refused (destination path cannot be a socket address)" % (st, want, n)))
+    else:
+        att = int(parts["A"])
+        if st[3] != att:
+            bad.append(("C14", "packets_dropped = %d but %d sends were attempted and refused (destination path cannot be a socket "
+                        "address)" % (st[3], att)))
+        if att and st[2] == 0:
+            bad.append(("C14", "bytes_dropped = 0 after %d refused sends" % att))
+    return bad
 
 
 def judge_ur(t, obs):
@@ -235,6 +281,8 @@ def judge(case, obs):
     t = case.split()
     if t[0] == "UR":
         return judge_ur(t, obs)
+    if t[0] == "XL":
+        return judge_xl(t, obs)
     if obs.startswith("HARNESS-PANIC"):
         return [("C13", obs[:200]), ("C14", obs[:200])]
     if t[0] in ("ST", "UC"):
@@ -405,6 +453,31 @@ def judge(case, obs):
                         bad.append(("C13", "flush (op %d) returned Ok with the listener up, but %r, acknowledged earlier, had not "
                                     "reached it (%d datagrams received so far)" % (j, missing[0][:40], seen[j])))
                         break
+        # greedy at the level of the real sink: while what has been emitted since the last write fits the configured
+        # capacity, an emit puts nothing on the wire (listener always there, no queue in between)
+        if parts.get("N") and "l" not in ops and not queued:
+            seen = [int(x) for x in parts["N"].split(",")]
+            pending = 0
+            for j, (op, r) in enumerate(zip(ops, res)):
+                if j >= len(seen):
+                    break
+                before = seen[j - 1] if j else 0
+                if op[0] == "E" and r.startswith("k"):
+                    need = len(unhx(op[1:])) + 1
+                    if need <= cap and pending + need <= cap:
+                        if seen[j] != before:
+                            for pid in ("C19", "C13"):
+                                bad.append((pid, "emit %d (%d bytes with its newline) fitted the %d-byte buffer holding %d bytes, yet %d "
+                                            "datagram(s) were written during it" % (j, need, cap, pending, seen[j] - before)))
+                            break
+                        pending += need
+                    elif need <= cap:
+                        pending = need          # the buffer was flushed to make room, the new line is buffered
+                    # else: an oversized metric goes out on its own and leaves the buffer as it is
+                elif op == "F":
+                    pending = 0
+                elif op[0] == "E":
+                    break
         # statistics are read before the drop: they count the datagrams sent so far; with the listener always
         # up nothing is ever dropped and nothing sent before the stats were read is missing
         if "l" not in ops:
@@ -452,7 +525,7 @@ def run_sock_check(prop, tier, seed):
         for i, c in enumerate(cases):
             if c.startswith("XW"):
                 impl[i], model[i] = xw_views(c, impl[i], model[i])
-            elif c.startswith("UR"):
+            elif c.startswith("UR") or c.startswith("XL") or (c.startswith("BU ") and c.split()[1].isdigit() and int(c.split()[1]) > 65000):
                 model[i] = impl[i]                 # judged, not modelled
             elif c.startswith("XS") or c.startswith("BXS"):
                 # which listener got what is judged, not modelled; the `-` of op m is not in the model's results
